@@ -130,6 +130,21 @@ theorem safe_withTake (n : Nat) {x : Rd α} (hx : Safe x) : Safe (Rd.withTake n 
     | err e => rw [hxs] at h; cases h
     | panic => rw [hxs] at h; cases h
 
+theorem safe_withTakeDrain (n : Nat) {x : Rd α} (hx : Safe x) : Safe (Rd.withTakeDrain n x) where
+  ne_panic s := by
+    unfold Rd.withTakeDrain
+    cases hxs : x (s.take n) with
+    | ok p => simp
+    | err e => simp
+    | panic => exact absurd hxs (hx.ne_panic _)
+  suffix := by
+    intro s a r h
+    unfold Rd.withTakeDrain at h
+    cases hxs : x (s.take n) with
+    | ok p => rw [hxs] at h; cases h; exact List.drop_suffix _ _
+    | err e => rw [hxs] at h; cases h
+    | panic => rw [hxs] at h; cases h
+
 theorem safe_many {x : Rd α} (hx : Safe x) : ∀ n, Safe (Rd.many x n)
   | 0 => safe_pure' _
   | n+1 => safe_bind' hx fun _ => safe_bind' (safe_many hx n) fun _ => safe_pure' _
@@ -295,6 +310,7 @@ macro "safe_step" : tactic => `(tactic| first
   | with_reducible apply safe_bind | with_reducible apply safe_bind'
   | with_reducible apply safe_ite | with_reducible apply safe_wrapInvalid
   | with_reducible apply safe_many | with_reducible apply safe_withTake
+  | with_reducible apply safe_withTakeDrain
   | intro _)
 
 /-- peel `Safe` goals as far as the primitives go; what is left are the calls of other readers -/
